@@ -512,8 +512,10 @@ def replay(ctx, rp):
     mods = load_introspect()
     an, tp = mods["ast_nodes"], mods["type_parsing"]
     r = rp["replay"]
-    ctx.case({"replay": rp["signature"]})
+    ctx.case({"replay": rp["signature"]}, sample={"kind": r["kind"], "what": r.get("decl", r.get("line"))})
     ctx.case({"replay": rp["signature"], "x": 1})
+    res = tlc.run(SPEC, os.path.join(TLA, "CType_MC.cfg"), timeout=600)          # the oracle still satisfies its laws
+    ctx.tlc_ok(res, "CType_MC")
     if r["kind"] == "parse":
         try:
             got = jsonable(norm(to_spec(tp.parse_type(r["decl"]), an)))
